@@ -7,6 +7,7 @@ import (
 	"regexp"
 
 	"github.com/scrapli/scrapligo/util"
+	"github.com/scrapli/scrapligo/util/simhook"
 )
 
 // SendInteractiveEvent is a struct representing a single "event" that can be sent to
@@ -26,6 +27,8 @@ func (c *Channel) sendInteractive(
 	op *OperationOptions,
 	readUntilF func(ctx context.Context, b []byte) ([]byte, error),
 ) {
+	simhook.Enter("op.sendinteractive")
+
 	defer close(cr)
 
 	var b []byte
